@@ -483,3 +483,53 @@ func zzDKG_qual_dealer(c1, c2 int, dup bool) {
 	}
 	verifReach("qual dealer")
 }
+
+// zzC08_jf_complaints: Joint-Feldman observer (participant 4 of n = 5, t = 2). Byzantine participant j = 1 deals a
+// malformed vector (it is disqualified as a dealer) and, like the honest participants 2 and 3, complains against
+// dealer k = 0 in round 2; k never answers. k has t+1 complaints and must be disqualified by every honest
+// participant, whatever the order in which j's own misbehaviour and j's complaint were seen.
+// order: 0 j's bad vector first in round 1 | 1 j's bad vector last in round 1 | 2 j sends no vector at all
+// (disqualified at the first timeout); nHonest: number of honest complaints (2 makes t+1 with j's).
+func zzC08_jf_complaints(order, nHonest int, answerHonest bool) {
+	const n, t = 5, 2
+	me, k, j := 4, 0, 1
+	proc := &recProc{}
+	st, err := NewJointFeldman(n, t, me, proc)
+	verifAssert(err == nil, "constructor")
+	verifAssert(st.Start(nondetBytes(KeyGenSeedMinLen)) == nil, "Start")
+	if order == 0 {
+		_ = st.HandleBroadcastMsg(j, dkgVecMsg(3, n, t, j))
+	}
+	for d := 0; d < n; d++ {
+		if d == me || d == j {
+			continue
+		}
+		_ = st.HandleBroadcastMsg(d, dkgVecMsg(0, n, t, d))
+		_ = st.HandlePrivateMsg(d, dkgShareMsg(0, n, t, d, me))
+	}
+	_ = st.HandlePrivateMsg(j, dkgShareMsg(0, n, t, j, me))
+	if order == 1 {
+		_ = st.HandleBroadcastMsg(j, dkgVecMsg(3, n, t, j))
+	}
+	verifAssert(st.NextTimeout() == nil, "first timeout")
+	complaint := []byte{byte(feldmanVSSComplaint), byte(k)}
+	verifAssert(st.HandleBroadcastMsg(j, complaint) == nil, "complaint of j against k is handled")
+	for c := 2; c < 2+nHonest; c++ {
+		verifAssert(st.HandleBroadcastMsg(c, complaint) == nil, "honest complaint against k is handled")
+		if answerHonest {
+			// k answers the honest complainers with the right shares, but never answers j
+			verifAssert(st.HandleBroadcastMsg(k, dkgAnswerMsg(1, n, t, k, c)) == nil, "answer handled")
+		}
+	}
+	verifAssert(st.NextTimeout() == nil, "second timeout")
+	_, _, _, _ = st.End()
+	jf := st.(*JointFeldmanState)
+	verifAssert(jf.fvss[j].disqualified, "the dealer with the malformed / missing vector is disqualified")
+	// (more than t complaints, or an unanswered one: j's is never answered)
+	verifAssert(jf.fvss[k].disqualified, "a dealer with more than t complaints (or an unanswered one) is disqualified by every honest participant")
+	verifAssert(len(jf.fvss[k].complaints) == 1+nHonest, "every complaint against the dealer is counted, whoever sent it")
+	for _, f := range proc.flags {
+		verifAssert(f == j || f == k, "only Byzantine participants are flagged")
+	}
+	verifReach("jf complaints")
+}
